@@ -518,3 +518,29 @@ def aligncheck(repo):
         raise AnalysisError(f"only {res.instances} ContiguousBuffer constructors with an alignment check recognised")
     res.analysed = [rel]
     return res
+
+
+def arrayok(facts: CppFacts):
+    """R-ARRAYOK (C01/C04): "an array is Ok() only if every element is Ok()" (cpp-reference).  Scalar elements can be
+    not-Ok too (a Bcd digit above 9), so GenericArrayView::Ok() has no success exit before its loop over all elements:
+    every `return true` of the method follows a `for (i = 0; i < ElementCount(); ++i)` whose body returns false when
+    `(*this)[i].Ok()` (or `at(i).Ok()`) fails, and the loop starts at 0 and is bounded by ElementCount()."""
+    res = RuleResult("R-ARRAYOK")
+    ms = [m for m in facts.by_class("GenericArrayView") if m.name == "Ok"]
+    if not ms:
+        raise AnalysisError("GenericArrayView::Ok not found")
+    m = ms[0]
+    body = re.sub(r"//[^\n]*", "", m.body)
+    res.instances = 2
+    lp = re.search(r"for\s*\(\s*(?:::std::)?size_t\s+(\w+)\s*=\s*0\s*;\s*\1\s*<\s*ElementCount\s*\(\s*\)\s*;\s*\+\+\1\s*\)\s*\{(.*?)\}", body, re.S)
+    if not lp or not re.search(r"if\s*\(\s*!\s*(?:\(\s*\*this\s*\)\s*\[\s*" + (lp.group(1) if lp else "i") + r"\s*\]|at\s*\(\s*\w+\s*\))\s*\.\s*Ok\s*\(\s*\)\s*\)\s*return\s+false", lp.group(2) if lp else ""):
+        res.add(f"{m.file}|GenericArrayView::Ok|loop", "GenericArrayView::Ok() no longer tests every element from 0 to ElementCount()",
+                m.file, m.line, "GenericArrayView::Ok")
+    else:
+        early = [x.start() for x in re.finditer(r"return\s+true\s*;", body) if x.start() < lp.start()]
+        if early:
+            res.add(f"{m.file}|GenericArrayView::Ok|early-success", "GenericArrayView::Ok() returns true before its per-element loop: an array of "
+                    "scalars whose elements can be invalid (`Bcd:8[4]` holding the nibble 0xA) is reported Ok(), and so is the "
+                    "enclosing structure, while `arr[i].Ok()` is false", m.file, m.line, "GenericArrayView::Ok")
+    res.analysed = [m.file]
+    return res
